@@ -106,8 +106,51 @@ Definition solve_multi_checked (A : list (list Q)) (bs : list (list Q)) : option
   | Some (Ns, D) => Some (map (sol_to_Q D) Ns)
   | None => None
   end.
+
+(* Second exact solver: plain Gaussian elimination over Q on the augmented rows [a_1 .. a_k | b].
+   It is the fall-back of [solve_checked]; its answer too is accepted only after the exact check
+   A.beta = b.  It exists so that COMPLETENESS can be proved (Proofs/FitSolve.v: a regular matrix always
+   yields an answer) without proving the exact-division property of the fraction-free elimination above. *)
+(* first row whose leading entry is non-zero, and the other rows in order *)
+Fixpoint qfind_pivot (rows : list (list Q)) : option (list Q * list (list Q)) :=
+  match rows with
+  | [] => None
+  | r :: rs =>
+      match r with
+      | p :: _ =>
+          if Qeqb p 0 then
+            match qfind_pivot rs with Some (pr, others) => Some (pr, r :: others) | None => None end
+          else Some (r, rs)
+      | [] => None
+      end
+  end.
+(* t - c * r, entrywise *)
+Fixpoint qaxpy (t : list Q) (c : Q) (r : list Q) : list Q :=
+  match t, r with a :: t', b :: r' => Qred (a - c * b) :: qaxpy t' c r' | _, _ => [] end.
+(* rows = k coefficients followed by the right-hand side.  The unknowns x satisfy row . (x ++ [-1]) = 0. *)
+Fixpoint gauss (k : nat) (rows : list (list Q)) : option (list Q) :=
+  match k with
+  | O => Some []
+  | S k' =>
+      match qfind_pivot rows with
+      | Some (p :: r, others) =>
+          let others' := map (fun row => match row with h :: t => qaxpy t (h / p) r | [] => [] end) others in
+          match gauss k' others' with
+          | Some sol => Some (Qred (- dot r (sol ++ [-1]) / p) :: sol)
+          | None => None
+          end
+      | _ => None
+      end
+  end.
+Definition solve_gauss (A : list (list Q)) (b : list Q) : option (list Q) :=
+  match gauss (length A) (augment A [b]) with
+  | Some beta => if veqb (mat_vec A beta) b then Some beta else None
+  | None => None
+  end.
+(* Some beta ONLY IF A.beta = b exactly (either solver); None only if BOTH solvers fail, which by
+   Proofs/FitSolve.v [solve_checked_complete] happens only for a singular A. *)
 Definition solve_checked (A : list (list Q)) (b : list Q) : option (list Q) :=
-  match solve_multi_checked A [b] with Some [beta] => Some beta | _ => None end.
+  match solve_multi_checked A [b] with Some [beta] => Some beta | _ => solve_gauss A b end.
 
 (* ---------- LinearLeastSquares (lsquares.go:36-101) ---------- *)
 Inductive fres (A : Type) := FOk (a : A) | FPanic | FSingular.
